@@ -20,7 +20,7 @@ Definition spawn_process_f46 (x : exec) (pid : nat) (fn : option nat) (caps : li
               h2 <- retain_vals h1 locals ;;
               h3 <- retain h2 a1 ;;
               Val (put_proc (put_heap x h3) pid
-                     (mkProc [a1] locals [Build_frame f 0 (length caps) 0] pers [] None None []))
+                     (mkProc [a1] locals [Build_frame f 0 (length caps) 0] pers [] None None [] []))
           | [] => Panic 672          (* "bundle holds the argument last" *)
           end
       | _ => Panic 671               (* inject_heap_data preserves the value's shape *)
